@@ -25,6 +25,7 @@ var vZeroBlock = make([]byte, 4096)
 // symbolic. With symaddr=1 the numbers are symbolic too, constrained by I2/I3 only.
 type vW struct {
 	nfs *Nfs
+	nfs2 *Nfs // a second server instance on the same disk (restart harnesses)
 	d   *verifrt.Disk
 	sup *super.FsSuper
 	// bounds
@@ -193,7 +194,7 @@ func (w *vW) hooks() {
 		if w.nfs == nil {
 			return
 		}
-		if a == w.nfs.fsstate.Balloc {
+		if a == w.nfs.fsstate.Balloc || (w.nfs2 != nil && a == w.nfs2.fsstate.Balloc) {
 			if w.symaddr {
 				verifrt.Assume(n == 0 || (n >= ds && n < mx))
 				for _, p := range w.ptrVal {
